@@ -513,6 +513,9 @@ def generate():
     from .translate_native import generate_native
 
     status.update(generate_native(gen))
+    from .translate_np import generate_np
+
+    status.update(generate_np(gen))
     return status
 
 
